@@ -2,7 +2,9 @@
 step), protection-flag variants must fail (vacuity), full edge-cover replay of the
 TLC state graph into a real unodb::optimistic_lock under the baton scheduler with
 the observable state compared after every step (DESIGN.md section 3.7)."""
+import json
 import os
+import re
 import subprocess
 import time
 
@@ -25,6 +27,109 @@ def path_line(nthreads, nsections, path):
         else:
             toks.append("%d%s" % (args[0], CODES[lab]))
     return "%d %d %s" % (nthreads, nsections, " ".join(toks))
+
+
+LCOV = {}
+LCOV_KEYS = ("sections_opened", "validations_judged", "validations_judged_after_a_write", "upgrades_judged",
+             "refusals_seen", "events_after_obsoletion", "finals_judged")
+
+
+def events_of(line):
+    """One driver record line -> LockTrace events (one per change of a thread's `out`, at the
+    scheduler step that executed the deciding access) framed by reset / final."""
+    parts = line.split("|")
+    evs = [{"e": "reset"}]
+    prev = {}
+    for rec in parts[1:]:
+        f = rec.split()
+        if not f or f[0].startswith("c"):
+            continue
+        if f[0] == "F":
+            w = int(f[1])
+            evs.append({"e": "final", "w": w & 0x7fffffff, "wobs": bool(w & 1), "wlocked": bool(w & 2),
+                        "d1": int(f[2]), "d2": int(f[3])})
+            continue
+        t, out = int(f[0]), f[5]
+        if prev.get(t, "none0") == out:
+            continue
+        prev[t] = out
+        evs.append({"e": "ev", "t": t, "out": out, "w": int(f[2]) & 0x7fffffff, "d1": int(f[3]), "d2": int(f[4]),
+                    "r1": int(f[6]), "r2": int(f[7])})
+    return evs
+
+
+def validate_lock_traces(rep, lines, what):
+    """Validate recorded executions (driver record lines) against spec/LockTrace.tla.
+    Rejected executions are isolated and reported (at most 3), the rest is still checked."""
+    if not lines:
+        return dict(what=what, executions=0, events=0, rejected=0)
+    d = os.path.join(vlib.CACHE, "lock_%d" % os.getpid())
+    os.makedirs(d, exist_ok=True)
+    execs = [(ln, events_of(ln)) for ln in lines]
+    nev = sum(len(e) for _, e in execs)
+    rejected = 0
+    rest = execs
+    rnd = 0
+    while rest and rnd < 4:
+        f = os.path.join(d, "lt_%s_%d.ndjson" % (re.sub(r"\W", "_", what), rnd))
+        with open(f, "w") as fh:
+            for _, evs in rest:
+                for e in evs:
+                    fh.write(json.dumps(e) + "\n")
+        acc, matched, r = vlib.validate_trace("LockTrace", "cfg/LockTrace/trace.cfg", f, timeout=1500, xmx="6g")
+        os.unlink(f)
+        if acc:
+            m = re.search(r'"LCOV", ' + ", ".join([r"(\d+)"] * 7), r.out)
+            if m:
+                for k, v in zip(LCOV_KEYS, m.groups()):
+                    LCOV[k] = LCOV.get(k, 0) + int(v)
+            break
+        off = 0
+        bad = len(rest) - 1
+        for i, (_, evs) in enumerate(rest):
+            if off <= matched < off + len(evs):
+                bad = i
+                break
+            off += len(evs)
+        ln, evs = rest[bad]
+        k = min(max(matched - off, 0), len(evs) - 1)
+        rejected += 1
+        rep.violation("LockTrace cannot explain event %d of a recorded execution of the real lock (%s): %s"
+                      % (k, what, json.dumps(evs[k])),
+                      {"what": what, "record": ln[:4000], "events": evs[:k + 1], "rejected_event": evs[k]})
+        rest = rest[bad + 1:]
+        rnd += 1
+    return dict(what=what, executions=len(execs), events=nev, rejected=rejected)
+
+
+def random_runs(rep, exe, tag, nthreads, nsections, runs, seed):
+    """Random (sticky) schedules of random programs on the real lock, judged by LockTrace."""
+    nproc = min(vlib.NCPU, 8)
+
+    def work(i):
+        try:
+            pr = subprocess.run([exe, "--random", str(runs // nproc), "--seed", str((seed * 64 + i) * 10000019),  # splitmix streams of adjacent seeds overlap
+                                 "--threads", str(nthreads), "--sections", str(nsections)],
+                                capture_output=True, text=True, timeout=900)
+        except subprocess.TimeoutExpired:
+            return ("timeout", [])
+        lines = [ln.split(" ", 2)[2] for ln in pr.stdout.splitlines()[1:] if ln.count(" ") > 2 and "|F " in ln]
+        hung = [ln for ln in pr.stdout.splitlines() if " HUNG|" in ln]
+        return (pr.returncode, lines, hung, (pr.stderr or "")[-400:])
+
+    lines = []
+    for res in vlib.parallel_map(work, range(nproc), workers=nproc):
+        if res[0] == "timeout":
+            rep.violation("lock_driver (%s) random runs timed out (a thread never finished)" % tag, {})
+            continue
+        rc, ls, hung, err = res
+        lines += ls
+        if rc != 0:
+            rep.violation("lock_driver (%s) random %dx%d: rc=%s %s %s" % (tag, nthreads, nsections, rc,
+                          "a thread could not finish (spins forever) after: " + hung[0][:600] if hung else "", err),
+                          {"record": hung[0][:4000] if hung else None})
+    lines = sorted(set(lines))
+    return validate_lock_traces(rep, lines, "random %s %dx%d" % (tag, nthreads, nsections))
 
 
 def replay_graph(rep, exe, cfgname, nthreads, nsections, tag, max_paths=None):
@@ -68,6 +173,7 @@ def replay_graph(rep, exe, cfgname, nthreads, nsections, tag, max_paths=None):
         return res
 
     steps = 0
+    divergent = []
     lockstep_fail = 0
     mism = 0
     edges_replayed = 0
@@ -86,6 +192,7 @@ def replay_graph(rep, exe, cfgname, nthreads, nsections, tag, max_paths=None):
             done, ls = int(head[1]), head[2] == "1"
             if not ls:
                 lockstep_fail += 1
+                divergent.append(ln)
             for i in range(min(done, len(path), len(parts) - 1)):
                 (src, lab, args, dst), obs = path[i], parts[i + 1]
                 o = obs.split()
@@ -104,8 +211,15 @@ def replay_graph(rep, exe, cfgname, nthreads, nsections, tag, max_paths=None):
                     mism += 1
                     break
             edges_replayed += min(done, len(path))
+    # behaviours whose step structure the code no longer follows: the schedule was still
+    # executed to the end; the contract-level trace spec decides whether C07 held on them
+    lt = validate_lock_traces(rep, divergent, "schedule of OptLock %s, %s" % (cfgname, tag))
+    if lockstep_fail:
+        log("[C07] %s/%s: %d of %d behaviours diverged from OptLock's step structure (%d rejected by LockTrace)"
+            % (cfgname, tag, lockstep_fail, len(paths), lt["rejected"]))
     return dict(cfg=cfgname, build=tag, states=len(g.states), edges=g.nedges, paths=len(paths),
                 steps_compared=steps, lockstep_divergences=lockstep_fail, mismatches=mism,
+                divergent_schedules_judged_by_LockTrace=lt["executions"], divergent_rejected=lt["rejected"],
                 generated=r.generated, distinct=r.distinct,
                 sample=path_line(nthreads, nsections, paths[len(paths) // 2])[:400])
 
@@ -143,6 +257,12 @@ def run(prop, tier, seed):
             if tier == "quick" and tag == "ndebug" and cfgname != "t2s2":
                 continue
             replays.append(replay_graph(rep, exe, cfgname, nt, ns, tag, mp))
+    # 3. recorded executions -> contract (LockTrace.tla): random sticky schedules of random programs
+    rnd = []
+    rplan = [(2, 3, 4000), (3, 3, 4000)] if tier == "quick" else [(2, 3, 40000), (3, 3, 40000), (3, 4, 20000), (4, 2, 20000)]
+    for nt, ns, runs in rplan:
+        for exe, tag in zip(exes, ("dbg", "ndebug")):
+            rnd.append(random_runs(rep, exe, tag, nt, ns, runs, seed))
     rc = rep.finish()
     cov = {
         "states": dist, "transitions": gen,
@@ -152,6 +272,8 @@ def run(prop, tier, seed):
         "model_configs": cfgs,
         "protection_flags_whose_removal_TLC_detects": flags_detected,
         "replays": [{k: v for k, v in r.items() if k != "sample"} for r in replays],
+        "recorded_executions_validated_by_LockTrace": rnd,
+        "LockTrace_clause_counts_on_accepted_files": dict(LCOV),
         "rule": "edge cover of the complete TLC state graph: every transition of the 2-thread x 2-section and 3-thread x 1-section models is executed on the real lock at least once and the observable state compared after every step",
     }
     vlib.write_evidence(prop, tier, seed, "model_checking", cov,
